@@ -444,7 +444,14 @@ const c19Horizon = time.Hour
 
 var c19Kinds = []string{"drop", "dup", "dup3", "hold1", "hold3", "late", "part"}
 
-func c19Scenarios(c *vx.Ctx) (all []c19Scn, small []c19Scn) {
+func c19QuickScenariosForDebug() []c19Scn {
+	all, _ := c19ScenariosTier(true)
+	return all
+}
+
+func c19Scenarios(c *vx.Ctx) (all []c19Scn, small []c19Scn) { return c19ScenariosTier(c.Quick()) }
+
+func c19ScenariosTier(quick bool) (all []c19Scn, small []c19Scn) {
 	// The smallest scenarios get the deeper deviation bound.
 	small = []c19Scn{
 		{Streams: "uni1", Bytes: 1, Flush: "none"},
@@ -473,7 +480,7 @@ func c19Scenarios(c *vx.Ctx) (all []c19Scn, small []c19Scn) {
 	add(c19Scn{Streams: "uni1", Bytes: 100, Flush: "none", Pause: true})
 	add(c19Scn{Streams: "uni3", Bytes: 1200, WChunk: 100, Flush: "each", RChunk: 100, Pause: true})
 	add(c19Scn{Streams: "bidi1", Bytes: 1200, Flush: "none", Buf: 512, Pause: true})
-	if !c.Quick() {
+	if !quick {
 		// long runs (hundreds of datagrams: tiny windows, byte-wise readers)
 		for _, st := range []string{"uni1", "bidi1", "uni3"} {
 			add(c19Scn{Streams: st, Bytes: 5000, WChunk: 100, Flush: "none", RChunk: 100, Buf: 512})
@@ -554,7 +561,7 @@ func TestVerif_C19(t *testing.T) {
 		kAll := vx.Pick(c, 1, 2)
 		kSmall := vx.Pick(c, 2, 3)
 		pairMaxN := 30
-		c.Rule(fmt.Sprintf("fault enumeration: %d application scenarios (streams x bytes x write chunking x flush x read chunk x buffer sizes x pause-before-close, listed in c19Scenarios) on two real quic Endpoints with real TLS in a synctest bubble; per scenario the default run (deliver everything in order) plus (part k1) every single deviation from {drop, dup, dup3, hold1, hold3, late (timer first), part (4 s black hole)} at every datagram index 0..N+2 of the default run (both directions; N measured per scenario), (part dead) a permanent black hole at every index for the %d smallest scenarios, (part k2..) every placement of 2..k deviations from {drop, dup3, hold1, late, part} at increasing indices, k=%d for every scenario with N<=%d and k=%d for the smallest scenarios. After the last deviation the network is perfect. Non-trivial = all deviations of the case took effect and the run completed", len(all), len(small), kAll, pairMaxN, kSmall))
+		c.Rule(fmt.Sprintf("fault enumeration: %d application scenarios (streams x bytes x write chunking x flush x read chunk x buffer sizes x pause-before-close, listed in c19Scenarios) on two real quic Endpoints with real TLS in a synctest bubble; per scenario the default run (deliver everything in order) plus (part k1) every single deviation from {drop, dup, dup3, hold1, hold3, late (timer first), part (4 s black hole)} at every datagram index 0..N+2 of the default run (both directions; N = largest datagram count of three default runs, measured by each shard process; cases are assigned to shards by content hash so that a +-1 disagreement on N cannot lose a case below the smallest measured N), (part dead) a permanent black hole at every index for the %d smallest scenarios, (part k2..) every placement of 2..k deviations from {drop, dup3, hold1, late, part} at increasing indices, k=%d for every scenario with N<=%d and k=%d for the smallest scenarios. After the last deviation the network is perfect. Non-trivial = all deviations of the case took effect and the run completed", len(all), len(small), kAll, pairMaxN, kSmall))
 		c.Assume("timeouts are outside the property: HandshakeTimeout and MaxIdleTimeout are disabled on both endpoints; instead every application operation must complete (reads to io.EOF, Close()==nil) within 1 h of fake time and 4000 datagrams once the network delivers again")
 		c.Assume("packet-number skipping (the only randomness that changes packet structure) is moved out of reach white-box; connection IDs and TLS randomness only change values. Go select order inside an endpoint is not owned: oracles hold on every outcome")
 		c.Assume("Close()==nil is judged against the peer's qlog (packet_received STREAM frames covering every byte and the FIN) at the moment Close returns")
@@ -565,12 +572,17 @@ func TestVerif_C19(t *testing.T) {
 		{
 			det, detSizes := true, true
 			var counts []int
-			for i, sc := range all {
+			for _, sc := range all {
+				if c.Replaying() {
+					break
+				}
 				a := c19Exec(c.T, c19Case{Scn: sc})
 				nOf[sc] = a.ndgrams
-				counts = append(counts, a.ndgrams)
-				if i < 8 && !c.Replaying() {
+				// N = the largest of three default runs (it can differ by one
+				// between runs for a few scenarios).
+				for rep := 0; rep < 2; rep++ {
 					b := c19Exec(c.T, c19Case{Scn: sc})
+					nOf[sc] = max(nOf[sc], b.ndgrams)
 					if a.ndgrams != b.ndgrams || a.hashN != b.hashN {
 						det = false
 					}
@@ -578,6 +590,7 @@ func TestVerif_C19(t *testing.T) {
 						detSizes = false
 					}
 				}
+				counts = append(counts, nOf[sc])
 			}
 			c.Note("deterministic", det)
 			c.Note("deterministic_including_datagram_sizes", detSizes)
@@ -597,7 +610,7 @@ func TestVerif_C19(t *testing.T) {
 			}
 		}
 
-		vx.Enumerate(c, "k1", opts, func(yield func(c19Case) bool) {
+		vx.Enumerate(c, "k1", opts, c19Sharded(c, func(yield func(c19Case) bool) {
 			for _, sc := range all {
 				if !yield(c19Case{Scn: sc}) {
 					return
@@ -610,9 +623,9 @@ func TestVerif_C19(t *testing.T) {
 					}
 				}
 			}
-		}, check)
+		}), check)
 		partDone("k1")
-		vx.Enumerate(c, "dead", opts, func(yield func(c19Case) bool) {
+		vx.Enumerate(c, "dead", opts, c19Sharded(c, func(yield func(c19Case) bool) {
 			for _, sc := range small {
 				for at := 0; at < nOf[sc]+3; at++ {
 					if !yield(c19Case{Scn: sc, Devs: []c19Dev{{At: at, Kind: "dead"}}}) {
@@ -620,11 +633,11 @@ func TestVerif_C19(t *testing.T) {
 					}
 				}
 			}
-		}, check)
+		}), check)
 		partDone("dead")
 		// exactly k deviations at increasing indices
 		multi := func(part string, k int, scs []c19Scn) {
-			vx.Enumerate(c, part, opts, func(yield func(c19Case) bool) {
+			vx.Enumerate(c, part, opts, c19Sharded(c, func(yield func(c19Case) bool) {
 				for _, sc := range scs {
 					n := nOf[sc] + 3
 					var rec func(devs []c19Dev, from int) bool
@@ -645,7 +658,7 @@ func TestVerif_C19(t *testing.T) {
 						return
 					}
 				}
-			}, check)
+			}), check)
 			partDone(part)
 		}
 		multi("k2-small", 2, small)
